@@ -240,6 +240,9 @@ func (in *Interp) cborUnmarshal(dataV Value, dstV Value) Value {
 		}
 		// a token of another type: the real decoder would try field-by-field; model as arbitrary outcome
 	}
+	if res, ok := in.havocTokenDecode(data, dp, pt.Elem()); ok {
+		return res
+	}
 	in.stubsSeen["cbor-model:Unmarshal(havoc)"] = true
 	if len(data) == 0 {
 		return in.mkError("EOF", nil)
@@ -251,8 +254,20 @@ func (in *Interp) cborUnmarshal(dataV Value, dstV Value) Value {
 	if !in.branch(okv) {
 		return in.mkError("cbor: cannot unmarshal", nil)
 	}
-	in.havocInto(dp, pt.Elem(), fmt.Sprintf("dec%d", k))
-	return nilErr
+	var res Value = nilErr
+	func() {
+		defer func() {
+			if r := recover(); r != nil {
+				if df, ok := r.(decodeFail); ok {
+					res = in.mkError("cbor: "+df.why, nil)
+					return
+				}
+				panic(r)
+			}
+		}()
+		in.havocDecodeInto(dp, pt.Elem(), fmt.Sprintf("dec%d", k), 0)
+	}()
+	return res
 }
 
 func init() {
